@@ -58,6 +58,7 @@ type RCut struct {
 type ROp struct {
 	Op string `json:"op"` // NR RD RA RM RF(ReadFull exactly the message, no EOF read)
 	K  int    `json:"k"`
+	R  int    `json:"r"` // JA: size of the Read calls on the joined reader (0 = io.ReadAll)
 }
 
 // RProg is a reader program.
@@ -816,7 +817,24 @@ func (r *readerRun) exec(sc *xport.ScriptConn, outp *[]Ev) (out []Ev) {
 			term := bytes.Repeat([]byte{'#'}, op.K)
 			var b []byte
 			var err error
-			measure(func() { b, err = io.ReadAll(websocket.JoinMessages(c, string(term))) })
+			if op.R > 0 {
+				// small reads on the joined reader: message / terminator boundaries fall inside and between calls
+				jr := websocket.JoinMessages(c, string(term))
+				small := make([]byte, op.R)
+				for it := 0; it < 4000000; it++ {
+					var n int
+					measure(func() { n, err = jr.Read(small) })
+					b = append(b, small[:n]...)
+					if err != nil {
+						break
+					}
+				}
+				if err == io.EOF {
+					err = nil // what io.ReadAll would report
+				}
+			} else {
+				measure(func() { b, err = io.ReadAll(websocket.JoinMessages(c, string(term))) })
+			}
 			if rd != nil {
 				prevRd = rd
 			}
